@@ -71,6 +71,8 @@ def make_cells(prop, seed, plan):
             c = dict(p)
             c['prop'] = prop
             c['seeds'] = seeds[a:a + chunk]
+            # each cell samples its own 10 000-word identifier pool (src/utils samples it at import)
+            c.setdefault('pool_seed', common.h32(seed, prop, 'pool', key, a) % 100000)
             cells.append(c)
     return cells
 
